@@ -808,8 +808,8 @@ def _site_table():
             st = SiteTr(info, fn, [W], {"kspace": P0, "sampling_mask": MASK, "sensitivity_map": SENS})
             return st.plan(st.value(_nth(_assigns(fn, "image"), 0, "image").value))
         st = SiteTr(info, fn, [V], {"image": P0, "sampling_mask": MASK, "sensitivity_map": SENS})
-        ks = [a for a in _assigns(fn, "kspace") if ast.unparse(a.value).startswith("torch.where")]
-        return st.plan(st.value(_nth(ks, 0, "kspace = torch.where(...)").value))
+        ks = [a for a in _assigns(fn, "kspace") if "forward_operator" in ast.unparse(a.value)]
+        return st.plan(st.value(_nth(ks, 0, "kspace = …forward_operator(...)").value))
 
     add("site_kiki_image", "KIKINet.forward: k-space to image", lambda: kiki("image"), "aStarPlan")
     add("site_kiki_kspace", "KIKINet.forward: image to k-space", lambda: kiki("kspace"), "aOpPlan")
